@@ -7,7 +7,7 @@ TARGET = os.path.join(ROOT, ".cache", "target")
 BIN = os.path.join(TARGET, "release", "beff-twin")
 REPO = os.environ.get("VERIF_REPO", "/repo")
 
-FAMILY = {"bdd_ops": "bdd", "dnf": "dnf", "proper_subtype": "proper", "semtype_ops": "semtype", "to_schema": "schema"}
+FAMILY = {"list_shape": "semtype", "bdd_ops": "bdd", "dnf": "dnf", "proper_subtype": "proper", "semtype_ops": "semtype", "to_schema": "schema"}
 KNOWN_FNS = {
     "bdd": {"union", "intersect", "diff", "complement", "from_node", "from_atom"},
     "dnf": {"bdd_to_dnf", "bdd_to_dnf_recursive", "dnf_to_bdd"},
